@@ -122,7 +122,7 @@ class ScalingOperator(EndomorphicOperator):
 
     def __call__(self, other):
         res = EndomorphicOperator.__call__(self, other)
-        if np.isreal(self._factor) and self._factor >= 0:
+        if np.isreal(self._factor) and np.real(self._factor) >= 0:
             if other.jac is not None and other.metric is not None:
                 from .sandwich_operator import SandwichOperator
                 sqrt_fac = np.sqrt(self._factor)
